@@ -69,6 +69,9 @@ func vh_CL() {
 	vAssert(post.commit <= pre.lastIndex, "C01|INV.commit<=last")
 	vAssert(vAnd(post.logLen == pre.logLen, post.term == pre.term), "C01|C07.commit-loop-no-log-change")
 	vAssert(post.applied == pre.applied, "C01.commit-loop-applied-untouched")
+	r.state = ctl.postState
+	vCheckInv(n, true, true)
+	r.state = Shutdown
 	if pre.state != Leader {
 		vAssert(post.commit == pre.commit, "C01|C04.only-leader-commits-by-counting")
 		vCover("non-leader")
